@@ -16,6 +16,8 @@ import TlxVerif.Proofs.C01EraseE
 import TlxVerif.Proofs.C01EraseG
 import TlxVerif.Proofs.C01Bulk
 import TlxVerif.Proofs.C01Verify
+import TlxVerif.Proofs.C01VerifyConv
+import TlxVerif.Proofs.C01Full
 namespace TlxVerif.C02
 open TlxVerif.C01
 
@@ -228,10 +230,168 @@ theorem verify_after_every_history (p : Params K) (pv : p.Valid) (sw : StrictWea
   obtain ⟨t, lg, h1, h2, _⟩ := inv_all_histories p pv sw ops {} {} (inv_init p) (by simp [Balanced, Tree.nLeaves, Tree.nInner])
   exact ⟨t, lg, h1, verify_passes p pv sw t h2⟩
 
--- OPEN: verify_characterised — the converse `verifyB p t = true → TreeInv p t` (for representable states:
---   `slotuse ≤ slotmax`, `slotuse + 1` children).  `verify()` does not check the upper fill bounds (arrays
---   cannot overflow in the C++), so the converse needs those as hypotheses; not proved.
-def verify_characterised_statement (p : Params K) : Prop :=
-  ∀ (t : Tree K V), (∀ r, t.root = some r → ∃ ml mi, ShapeTop p ml mi r.level r) → verifyB p t = true → TreeInv p t
+/-- what the C++ node layout guarantees and `verify()` therefore cannot and does not check: no slot array
+is overfull and an inner node with `slotuse` keys has `slotuse + 1` children (`Rep`); on an empty tree
+(`root_ == nullptr`) `verify()` checks nothing, so `stats_` = 0 is a hypothesis there -/
+def Representable (p : Params K) (t : Tree K V) : Prop :=
+  (∀ r, t.root = some r → Rep p r.level r) ∧ (t.root = none → t.stats = {})
+
+/-- **`verify()` characterises the invariant**: on representable states a passing self-check establishes
+`TreeInv` — equal leaf depth and `level` fields, fill bounds, child counts, global key order, separators,
+`stats_` = recount -/
+theorem verify_characterised (p : Params K) (sw : StrictWeak p.lt) (t : Tree K V) (hrep : Representable p t)
+    (hv : verifyB p t = true) : TreeInv p t := by
+  obtain ⟨hr, hn⟩ := hrep
+  unfold verifyB at hv
+  cases hroot : t.root with
+  | none =>
+    refine ⟨?_, ?_, ?_⟩
+    · simp only [TreeShape, hroot]; exact hn hroot
+    · simp [Tree.toList, hroot, SortedE]
+    · simp only [hroot]
+  | some r =>
+    rw [hroot] at hv
+    simp only [Bool.and_eq_true, beq_iff_eq] at hv
+    obtain ⟨⟨⟨h1, h2⟩, h3⟩, h4⟩ := hv
+    cases hvn : verifyNode p true r.level r with
+    | none => rw [hvn] at h1; cases h1
+    | some ab =>
+      obtain ⟨a, b⟩ := ab
+      have hok := verifyNode_conv p sw r.level r true a b hvn (hr r hroot) rfl
+      have htl : t.toList = flatten r.level r := by simp [Tree.toList, hroot]
+      refine ⟨?_, by rw [htl]; exact hok.sorted, by simp only [hroot]; exact hok.sep⟩
+      simp only [TreeShape, hroot]
+      refine ⟨by simpa using hok.shape, ?_, ?_, ?_⟩
+      · simp only [Tree.nLeaves, hroot] at h3; exact h3.symm
+      · simp only [Tree.nInner, hroot] at h4; exact h4.symm
+      · rw [htl] at h2; exact h2.symm
+
+/-- every state satisfying the invariant is representable … -/
+theorem inv_representable (p : Params K) (t : Tree K V) (ht : TreeInv p t) : Representable p t := by
+  have shape_rep : ∀ (h : Nat) (n : BNode K V) (ml mi : Nat), ShapeTop p ml mi h n → Rep p h n := by
+    intro h
+    induction h with
+    | zero =>
+      intro n ml mi hs
+      cases n with
+      | leaf es => simp only [ShapeTop] at hs; exact hs.2
+      | inner l ks kids => trivial
+    | succ h ih =>
+      intro n ml mi hs
+      cases n with
+      | leaf es => simp [ShapeTop] at hs
+      | inner l ks kids =>
+        simp only [ShapeTop] at hs
+        obtain ⟨_, h2, _, h4, h5⟩ := hs
+        exact ⟨h4, h2, fun c hc => ih c _ _ (h5 c hc).top⟩
+  obtain ⟨hs, _, _⟩ := ht
+  unfold TreeShape at hs
+  constructor
+  · intro r hr; rw [hr] at hs; exact shape_rep _ _ _ _ hs.1
+  · intro hr; rw [hr] at hs; exact hs
+
+/-- … so `verify()` passes exactly on the representable states that satisfy the invariant -/
+theorem verify_iff_inv (p : Params K) (pv : p.Valid) (sw : StrictWeak p.lt) (t : Tree K V) :
+    TreeInv p t ↔ (Representable p t ∧ verifyB p t = true) :=
+  ⟨fun ht => ⟨inv_representable p t ht, verify_passes p pv sw t ht⟩, fun h => verify_characterised p sw t h.1 h.2⟩
+
+/-- a container instantiated with `btree_default_traits` (slot counts extracted from btree.hpp:
+`max(8, 256 / sizeof …)`) is within the capacities the theorems quantify over -/
+theorem default_traits_valid (p : Params K) (sizeofValue sizeofKey sizeofPtr : Nat)
+    (hl : p.leafMax = Gen.defaultLeafSlots sizeofValue) (hi : p.innerMax = Gen.defaultInnerSlots sizeofKey sizeofPtr) :
+    p.Valid := by
+  refine ⟨?_, ?_⟩
+  · rw [hl]; unfold Gen.defaultLeafSlots; omega
+  · rw [hi]; unfold Gen.defaultInnerSlots; omega
+
+/-! ## the whole operation language, two registers
+
+`C01.Op` / `C01.stepOp` / `C01.runOps` (Model/C01Machine.lean) are what the driver executes for every
+protocol line: all forms of insert, `operator[]`, range insert / construction, `erase_one`, `erase(key)`,
+`erase(iterator)`, every query, iteration, the iterator conversions, `clear`, `bulk_load`, copy
+construction, assignment, both swaps (the wrapper's `std::swap` = copy + two assignments + destruction of
+the temporary) and the comparisons, on two container registers.  The ledger of an operation is the
+ledger of the one counting allocator all containers of a run share, so the balance is stated for the
+nodes of all live trees. -/
+
+/-- one operation from any pair of trees satisfying the invariant: never undefined; if executed, both
+trees satisfy the invariant (for the comparator they then hold) and
+`nodes before + allocated = nodes after + freed` -/
+theorem inv_step_full (c : Cfg) (pv : c.p.Valid) (s : MSt) (h0 : TreeInv (c.params s.m0) s.t0)
+    (h1 : TreeInv (c.params s.m1) s.t1) (op : C01.Op) :
+    stepOp c s op = .bad ∨
+    ∃ s' mo lg, stepOp c s op = .ok (s', mo, lg) ∧ TreeInv (c.params s'.m0) s'.t0 ∧ TreeInv (c.params s'.m1) s'.t1 ∧
+      s.t0.nLeaves + s.t1.nLeaves + lg.leafAlloc = s'.t0.nLeaves + s'.t1.nLeaves + lg.leafFree ∧
+      s.t0.nInner + s.t1.nInner + lg.innerAlloc = s'.t0.nInner + s'.t1.nInner + lg.innerFree := by
+  have hrel : Rel c s { l0 := s.t0.toList, l1 := s.t1.toList, m0 := s.m0, m1 := s.m1 } := ⟨rfl, rfl, h0, h1, rfl, rfl⟩
+  have := stepOp_refines c pv s _ hrel op
+  cases hsp : specStep c { l0 := s.t0.toList, l1 := s.t1.toList, m0 := s.m0, m1 := s.m1 } op with
+  | none => rw [hsp] at this; exact Or.inl this
+  | some res =>
+    obtain ⟨ss1, o⟩ := res
+    rw [hsp] at this
+    obtain ⟨s1, mo, l1, g1, _, g3, g4, _⟩ := this
+    exact Or.inr ⟨s1, mo, l1, g1, g3.inv0, g3.inv1, g4.1, g4.2⟩
+
+/-- **the ledger per register**: every operation other than the two swaps leaves the tree of the
+register it is not addressed to untouched, and its ledger balances the node count of the addressed
+register alone (`nodes before + allocated = nodes after + freed`; for `copy`/`assign` the freed nodes
+are the overwritten tree's, the allocated ones the copy's).  The two swaps exchange the registers:
+`BTree::swap` without any allocation, the wrappers' `std::swap` with three copies and three
+destructions, balanced in total (`inv_step_full`) -/
+theorem ledger_per_register (c : Cfg) (pv : c.p.Valid) (s : MSt) (h0 : TreeInv (c.params s.m0) s.t0)
+    (h1 : TreeInv (c.params s.m1) s.t1) (op : C01.Op) (hx : op.exchanges = false)
+    (s' : MSt) (mo : MOut) (lg : Ledger) (hstep : stepOp c s op = .ok (s', mo, lg)) :
+    (op.reg = 0 → s'.t1 = s.t1) ∧ (op.reg ≠ 0 → s'.t0 = s.t0) ∧
+    (s.get op.reg).nLeaves + lg.leafAlloc = (s'.get op.reg).nLeaves + lg.leafFree ∧
+    (s.get op.reg).nInner + lg.innerAlloc = (s'.get op.reg).nInner + lg.innerFree := by
+  have hrel : Rel c s { l0 := s.t0.toList, l1 := s.t1.toList, m0 := s.m0, m1 := s.m1 } := ⟨rfl, rfl, h0, h1, rfl, rfl⟩
+  have := stepOp_refines c pv s _ hrel op
+  cases hsp : specStep c { l0 := s.t0.toList, l1 := s.t1.toList, m0 := s.m0, m1 := s.m1 } op with
+  | none => rw [hsp] at this; rw [hstep] at this; cases this
+  | some res =>
+    obtain ⟨ss1, o⟩ := res
+    rw [hsp] at this
+    obtain ⟨s1, mo1, l1, g1, _, _, _, g5⟩ := this
+    rw [hstep] at g1
+    cases g1
+    obtain ⟨p1, p2, p3⟩ := g5 hx
+    exact ⟨p1, p2, p3.1, p3.2⟩
+
+/-- **for every history of the whole operation language** (two registers, any pair of comparators, every
+capacity ≥ 4, both in-node searches, unique and duplicate keys): no step leaves defined behaviour; both
+trees satisfy the invariant and pass `verify()`; `stats_` is the recount; allocated − freed = live nodes
+of both trees; and destroying both containers returns every node (allocated = freed) -/
+theorem inv_all_histories_full (c : Cfg) (pv : c.p.Valid) (m0 m1 : Nat) (ops : List C01.Op) :
+    ∃ s' outs lg, C01.runOps c { m0 := m0, m1 := m1 } ops = some (s', outs, lg) ∧
+      TreeInv (c.params s'.m0) s'.t0 ∧ TreeInv (c.params s'.m1) s'.t1 ∧
+      verifyB (c.params s'.m0) s'.t0 = true ∧ verifyB (c.params s'.m1) s'.t1 = true ∧
+      lg.leafAlloc = lg.leafFree + (s'.t0.nLeaves + s'.t1.nLeaves) ∧
+      lg.innerAlloc = lg.innerFree + (s'.t0.nInner + s'.t1.nInner) ∧
+      ((lg.add (clear s'.t0).2).add (clear s'.t1).2).leafAlloc = ((lg.add (clear s'.t0).2).add (clear s'.t1).2).leafFree ∧
+      ((lg.add (clear s'.t0).2).add (clear s'.t1).2).innerAlloc = ((lg.add (clear s'.t0).2).add (clear s'.t1).2).innerFree := by
+  obtain ⟨s', lg, h1, h2, h3⟩ := run_refines c pv ops _ _ (rel_init c m0 m1)
+  have c0 := clear_ledger _ s'.t0 h2.inv0
+  have c1 := clear_ledger _ s'.t1 h2.inv1
+  have r0 := stats_eq_recount _ s'.t0 h2.inv0
+  have r1 := stats_eq_recount _ s'.t1 h2.inv1
+  simp only [Bal2, MSt.leaves, MSt.inners, Tree.nLeaves, Tree.nInner, Nat.zero_add] at h3
+  refine ⟨s', _, lg, h1, h2.inv0, h2.inv1, verify_passes _ (c.params_valid pv _) (c.params_sw _) _ h2.inv0,
+    verify_passes _ (c.params_valid pv _) (c.params_sw _) _ h2.inv1, ?_, ?_, ?_, ?_⟩
+  · simp only [Tree.nLeaves]; omega
+  · simp only [Tree.nInner]; omega
+  · simp only [Ledger.add, c0.2.2.1, c0.2.2.2.2.1, c1.2.2.1, c1.2.2.2.2.1, r0.1, r1.1]
+    simp only [Tree.nLeaves]; omega
+  · simp only [Ledger.add, c0.2.2.2.1, c0.2.2.2.2.2, c1.2.2.2.1, c1.2.2.2.2.2, r0.2.1, r1.2.1]
+    simp only [Tree.nInner]; omega
+
+/-- the same **at every point of the history** (every prefix is a history) -/
+theorem inv_at_every_point (c : Cfg) (pv : c.p.Valid) (m0 m1 : Nat) (ops : List C01.Op) (n : Nat) :
+    ∃ s' outs lg, C01.runOps c { m0 := m0, m1 := m1 } (ops.take n) = some (s', outs, lg) ∧
+      TreeInv (c.params s'.m0) s'.t0 ∧ TreeInv (c.params s'.m1) s'.t1 ∧
+      lg.leafAlloc = lg.leafFree + (s'.t0.nLeaves + s'.t1.nLeaves) ∧
+      lg.innerAlloc = lg.innerFree + (s'.t0.nInner + s'.t1.nInner) := by
+  obtain ⟨s', outs, lg, h1, h2, h3, _, _, h6, h7, _⟩ := inv_all_histories_full c pv m0 m1 (ops.take n)
+  exact ⟨s', outs, lg, h1, h2, h3, h6, h7⟩
 
 end TlxVerif.C02
